@@ -1,0 +1,28 @@
+//go:build verif
+
+// Machine-checked contracts (comment-only; compiled only under the build tag "verif").
+package trafficrouting
+
+//@ track github.com/openkruise/rollouts/pkg/util.UpdateFinalizer as updFin
+//@ define deleting(x) = x.DeletionTimestamp != nil && x.DeletionTimestamp.Time != 0
+
+// typestate: the traffic-routing cleanup of this object has completed (established only by FinalisingTrafficRouting
+// returning (true, nil); see pkg/trafficrouting/zz_verif_contracts.go)
+//@ fact trCleanupDone
+
+//@ func (*TrafficRoutingReconciler).handleFinalizer
+//@ props C18
+//@ requires r != nil && tr != nil
+//@ requires cleanup_before_removal: deleting(tr) ==> @trCleanupDone
+//@ ensures at_most_one: #updFin <= 1
+//@ ensures removes_only_when_deleting: #updFin == 1 && #updFin.arg2 == util.RemoveFinalizerOpType ==> deleting(tr)
+//@ ensures own_finalizer: #updFin == 1 ==> #updFin.arg3 == util.TrafficRoutingFinalizer && iref(#updFin.arg1) == tr
+
+//@ func (*TrafficRoutingReconciler).Reconcile
+//@ props C18
+//@ requires r != nil && r.trafficRoutingManager != nil
+
+//@ func newTrafficRoutingContext
+//@ props C18
+//@ requires tr != nil
+//@ ensures result != nil
